@@ -654,6 +654,8 @@ class Factory:
         if name == "meta":
             return {"a": 1}
         if name == "name" or name == "label" or name.endswith("_name") or name == "topic_name" or name == "frame_id":
+            if isinstance(default, str) and r.random() < 0.5:
+                return default      # the default (e.g. frame_id="") takes other branches than a given name (fallbacks to meta)
             return "nm"
         if name in ("offset_2",):
             return 0.25
